@@ -66,6 +66,13 @@ func (k *Keys) GetCursorPos() (x, y int) {
 			return disable()
 		}
 
+		// Anything read along with the answer is user input.
+		if remain := rxRcvCursorPos.ReplaceAll(cursor, nil); len(remain) > 0 && !k.waiting && !k.reading {
+			k.mutex.RLock()
+			k.buf = append(k.buf, remain...)
+			k.mutex.RUnlock()
+		}
+
 		break
 	}
 
